@@ -8,6 +8,9 @@ use vstd::prelude::*;
 use vstd::std_specs::cmp::PartialEqSpecImpl;
 use vstd::std_specs::ops::AddAssignSpec;
 use std::collections::HashMap;
+use std::str::FromStr;
+#[allow(unused_macros)]
+macro_rules! error { ($($t:tt)*) => {} }
 verus! {
 '''
 EPILOGUE = '\n} // verus!\nfn main() {}\n'
@@ -27,6 +30,7 @@ class Gen:
         self.copied = []         # other items copied verbatim
         self.rewrites = []       # R1/R2/... applied
         self.parts = []
+        self.outside = []        # items copied verbatim OUTSIDE verus!{} (compiled by rustc, ignored by Verus)
         self.exec_fns = []       # names as Verus will call them (for --verify-function)
 
     def S(self, f):
@@ -89,7 +93,7 @@ class Gen:
             self.parts.append(t)
 
     def text(self):
-        return PRELUDE + '\n'.join(self.parts) + EPILOGUE
+        return PRELUDE + '\n'.join(self.parts) + '\n} // verus!\n' + '\n'.join(self.outside) + '\nfn main() {}\n'
 
 
 SENT_OPEN = re.compile(r'/\*#(\d+)\*/')
